@@ -240,7 +240,7 @@ def run(tier, seed, replay):
             if r.violation:
                 return name, c, r, []
             g = vlib.Graph(r)
-            paths, left = g.cover(seed=seed, max_len=opt["max_len"], max_paths=cap_paths)
+            paths, left = g.cover(seed=seed, max_len=opt["max_len"], max_paths=cap_paths if not name.startswith("lattice") else None)
             r.edges = []
             return name, c, r, ([slim(g.behaviour(p)) for p in paths], len(g.edges), left)
         r = vlib.tlc(SPEC, "MCForwarder", "MCForwarder.cfg", c, workers=1, timeout=2400, edges=True, simulate="num=%d" % opt["num"], depth=120,
